@@ -82,9 +82,9 @@ func solve(query string, dir, name string, timeoutS int, wantModel bool, quickOn
 	ctx0, cancel0 := context.WithTimeout(context.Background(), time.Duration(timeoutS+2)*time.Second)
 	// (a query z3-new does not decide at once is usually decided by another solver at once:
 	// a short first stage keeps the cost of z3-new's bad cases low)
-	short := 3
+	short := 5
 	if quickOnly {
-		short = 4
+		short = 5
 	}
 	if timeoutS < short {
 		short = timeoutS
